@@ -314,6 +314,9 @@ enum HAct {
     IncReg(SupportedRegister),
     WriteMem(u64, Vec<u8>),
     SetFlags(u64),
+    /// from inside the hook, try to register another hook (before/after, mnemonic) that increments a register;
+    /// the result of the attempt is ignored
+    TryHook(bool, SupportedMnemonic, SupportedRegister),
 }
 
 fn make_hook(
@@ -330,6 +333,10 @@ fn make_hook(
                 }
                 HAct::WriteMem(a, d) => ax.mem_write_bytes(*a, d)?,
                 HAct::SetFlags(v) => ax.verif_set_rflags(*v),
+                HAct::TryHook(before, m, r) => {
+                    let inner = make_hook('U', vec![HAct::IncReg(*r)]);
+                    let _ = if *before { ax.hook_before_mnemonic_native(*m, inner) } else { ax.hook_after_mnemonic_native(*m, inner) };
+                }
             }
         }
         match result {
@@ -441,7 +448,10 @@ fn run_case(lines: &[String], out: &mut String) {
             }
             "allxmm" => {
                 for k in 0..16 {
-                    a.reg_write_128(reg(&format!("XMM{}", k)), hex128(t[1 + k])).unwrap();
+                    // "-" leaves the register at the constructor's (random) value
+                    if t[1 + k] != "-" {
+                        a.reg_write_128(reg(&format!("XMM{}", k)), hex128(t[1 + k])).unwrap();
+                    }
                 }
                 "r ok".into()
             }
@@ -573,6 +583,10 @@ fn run_case(lines: &[String], out: &mut String) {
                         "f" => {
                             acts.push(HAct::SetFlags(hex(t[k + 1])));
                             k += 2;
+                        }
+                        "t" => {
+                            acts.push(HAct::TryHook(t[k + 1] == "b", mnemonic(t[k + 2]), reg(t[k + 3])));
+                            k += 4;
                         }
                         x => panic!("bad hook action {}", x),
                     }
